@@ -498,6 +498,18 @@ void dhp_family()
         Prog at = { {BEGIN,0,0,0}, {ATTACH,0,0,0}, {PROTECT,0,0,0}, {DEREF,0,0,0}, {DEREF,0,0,0}, {END,0,0,0}, {RELEASE,0,0,0}, {DETACH,0,0,0} };
         add<cds::gc::DHP>( "attach-vs-helpscan", c, { hp, xw, wd, at }, { 0 }, 0, 2, 3, 40000 );
     }
+    // the same race with a record that is NOT empty when it is abandoned (its retired object is guarded by a fifth thread), so that
+    // help_scan() really takes it over while another thread attaches to it
+    {
+        Cfg c; c.dhp = true; c.initial = 4;
+        Prog gd = { {ATTACH,0,0,0}, {ASSIGN,0,5,0}, {BEGIN,0,0,0}, {END,0,0,0}, {RELEASE,0,0,0}, {DETACH,0,0,0} };         // guards o5 throughout
+        Prog wd = { {ATTACH,0,0,0}, {RETIRE,5,0,0}, {DETACH,0,0,0}, {BEGIN,0,0,0}, {END,0,0,0} };                           // abandons a record that still holds o5
+        Prog hx = { {ATTACH,0,0,0}, {BEGIN,0,0,0}, {DETACH,0,0,0}, {END,0,0,0} };                                           // its detach() runs help_scan()
+        Prog at = { {BEGIN,0,0,0}, {ATTACH,0,0,0}, {PROTECT,0,0,0}, {DEREF,0,0,0}, {DEREF,0,0,0}, {END,0,0,0}, {RELEASE,0,0,0}, {DETACH,0,0,0} };   // attaches (reusing the abandoned record) and protects o0
+        Prog xw = { {ATTACH,0,0,0}, {BEGIN,0,0,0}, {SWAPRET,0,1,0}, {SCAN,0,0,0}, {END,0,0,0}, {DETACH,0,0,0} };            // retires o0 and scans
+        // wd comes last: the others are attached before it abandons its record (otherwise one of them would simply reuse it)
+        add<cds::gc::DHP>( "attach-vs-helpscan-nonempty", c, { gd, hx, at, xw, wd }, { 0 }, 0, 1, 2, 40000 );
+    }
     // retired-array growth (F2): g guarded of 256 retired by one thread, then release and scan
     for ( int g : { 0, 1, 63, 64, 192, 193, 200, 255, 256 } ) {
         Cfg c; c.dhp = true; c.initial = 4;
